@@ -511,7 +511,7 @@ def main(argv=None):
 
     # write replays
     out_lines = []
-    rep_dir = os.path.join(ROOT, "replays")
+    rep_dir = os.environ.get("VERIF_REPLAY_DIR") or os.path.join(ROOT, "replays")
     for sub_name, case, vio, path in violations:
         if path is None:
             os.makedirs(rep_dir, exist_ok=True)
